@@ -1075,7 +1075,7 @@ def oracle_c03(line, case, stats, allc=None, lines=None):
         for k, t in enumerate(got):
             while j < len(ref) and ref[j] != t: j += 1
             if j >= len(ref):
-                errs.append('captured token %d is not in the WHATWG reference stream (in order)%s: lol-html %r' % (k, ' [ip-name-reuse]' if refstate.ip_name_reuse else '', t)); break
+                errs.append('captured token %d is not in the WHATWG reference stream (in order)%s: lol-html %r' % (k, ' [ip-name-reuse]' if refstate.ip_name_reuse else (' [cdata-in-ip]' if refstate.cdata_in_ip else ''), t)); break
             j += 1
     if ' seed=2000 ' in line and b'\x00' not in data and b'\r' not in data:
         got = _c03_impl_tokens(case)
@@ -1084,11 +1084,12 @@ def oracle_c03(line, case, stats, allc=None, lines=None):
         stats['reference_tokens'] = stats.get('reference_tokens', 0) + len(ref)
         if got != ref:
             k = next((i for i, (x, y) in enumerate(zip(got, ref)) if x != y), min(len(got), len(ref)))
-            errs.append('token %d differs from the WHATWG reference%s: lol-html %r, reference %r' % (k, ' [ip-name-reuse]' if refstate.ip_name_reuse else '', got[k] if k < len(got) else None, ref[k] if k < len(ref) else None))
+            errs.append('token %d differs from the WHATWG reference%s: lol-html %r, reference %r' % (k, ' [ip-name-reuse]' if refstate.ip_name_reuse else (' [cdata-in-ip]' if refstate.cdata_in_ip and k < len(got) and got[k][0] == 'C' and got[k][3].startswith(b'[CDATA[') else ''), got[k] if k < len(got) else None, ref[k] if k < len(ref) else None))
     return errs[:3]
 
 def classify_c03(line, case, msg):
     if '[truncated-tag-at-eof]' in msg: return 'StrictTruncatedTagAtEof'
+    if '[cdata-in-ip]' in msg: return 'CdataInIntegrationPoint'
     return 'IntegrationPointNameReuse' if '[ip-name-reuse]' in msg else None
 
 # ------------------------------------------------------------------------------------------------
